@@ -49,7 +49,7 @@ Section Slots.
   (* no class in use finds, unshadowed, another class in use that is filled lazily *)
   Definition accepted_body (x:nat) : Prop := exists v, body x = Some (Some v).
   Definition shadowed_before (d c:nat) : Prop := exists pre post, d :: mro d = pre ++ c :: post /\ exists x, In x pre /\ accepted_body x.
-  Hypothesis mro_nodup : forall d, NoDup (d :: mro d).
+  Hypothesis mro_nodup : forall d, U d -> NoDup (d :: mro d).
   Hypothesis no_inherited_lazy_slot : forall d c, U d -> U c -> In c (mro d) -> ~ accepted_body c -> shadowed_before d c.
 
   Definition Inv (s:store) : Prop := forall x b, s x = Some b -> U x /\ b = compute x /\ static x = None.
@@ -97,7 +97,7 @@ Section Slots.
           assert (NA: ~ accepted_body c).
           { intros (v & Bv). unfold static, lookup in Stc. simpl in Stc. unfold val at 1, empty in Stc. rewrite Bv in Stc. discriminate. }
           destruct (no_inherited_lazy_slot d c Ud Uc Ic NA) as (pre2 & post2 & E2 & x & Ix & (v & Bx)).
-          assert (ND := mro_nodup d).
+          assert (ND := mro_nodup d Ud).
           assert (E1: d :: mro d = (d :: pre') ++ c :: post) by (simpl; f_equal; exact E).
           assert (N1: ~ In c (d :: pre')).
           { rewrite E1 in ND. apply NoDup_remove_2 in ND. intros H. apply ND. apply in_or_app. auto. }
@@ -177,3 +177,69 @@ Definition own_result (t:tstate nat) : option nat := match t with Done _ _ v => 
 Definition owner_run (mros:list (list nat)) (bodies:list nat) (uses sched:list nat) : list (option nat) * list (option nat) :=
   let st := srun nat (own_mro mros) (own_body bodies) (fun d => Some d) sched (empty nat, map (Start nat) uses) in
   (map own_result (snd st), map (lookup nat (own_mro mros) (own_body bodies) (fst st)) (seq 0 (length mros))).
+
+(* ---- the premise of slots_order_independent DECIDED on a class table (one row per class of a family: its strict ancestors in lookup order,
+        what its body binds for the slot - 0 nothing, 1 a rejected value, 2 an accepted value -, whether the class can be in use) ---- *)
+Definition row : Type := (list nat * nat * bool)%type.
+Definition r_mro (tbl:list row) (c:nat) : list nat := fst (fst (nth c tbl ([], 0, false))).
+Definition r_state (tbl:list row) (c:nat) : nat := snd (fst (nth c tbl ([], 0, false))).
+Definition r_used (tbl:list row) (c:nat) : bool := snd (nth c tbl ([], 0, false)).
+Definition r_body {T} (v:T) (tbl:list row) (c:nat) : option (option T) := match r_state tbl c with 0 => None | 1 => Some None | _ => Some (Some v) end.
+Definition acc (tbl:list row) (c:nat) : bool := match r_state tbl c with 0 | 1 => false | _ => true end.
+Fixpoint walk_ok (tbl:list row) (path:list nat) : bool :=
+  match path with [] => true | c :: r => if acc tbl c then true else if r_used tbl c then false else walk_ok tbl r end.
+Fixpoint nodupb (l:list nat) : bool := match l with [] => true | h :: t => negb (existsb (Nat.eqb h) t) && nodupb t end.
+Definition class_ok (tbl:list row) (d:nat) : bool :=
+  nodupb (d :: r_mro tbl d) && (negb (r_used tbl d) || acc tbl d || walk_ok tbl (r_mro tbl d)).
+Definition table_ok (tbl:list row) : bool := forallb (class_ok tbl) (seq 0 (length tbl)).
+
+Lemma nodupb_NoDup l : nodupb l = true -> NoDup l.
+Proof.
+  induction l as [|h t IH]; simpl; intros H; [constructor|]. apply andb_true_iff in H as [N R]. constructor; auto.
+  intros I. apply negb_true_iff in N. assert (E: existsb (Nat.eqb h) t = true) by (apply existsb_exists; exists h; split; auto; apply Nat.eqb_refl). congruence.
+Qed.
+Lemma acc_body {T} (v:T) tbl c : acc tbl c = true <-> exists w, r_body v tbl c = Some (Some w).
+Proof.
+  unfold acc, r_body. destruct (r_state tbl c) as [|[|k]]; split; try discriminate; auto.
+  - intros (w & E). discriminate.
+  - intros (w & E). discriminate.
+  - intros _. exists v. reflexivity.
+Qed.
+Lemma walk_shadow tbl : forall l c, walk_ok tbl l = true -> In c l -> r_used tbl c = true -> acc tbl c = false ->
+  exists pre post, l = pre ++ c :: post /\ exists x, In x pre /\ acc tbl x = true.
+Proof.
+  induction l as [|a r IH]; intros c W I Uc Ac; [destruct I|]. simpl in W. destruct (acc tbl a) eqn:Aa.
+  - destruct I as [<-|I]; [congruence|]. destruct (in_split _ _ I) as (p1 & post & ->). exists (a :: p1), post. split; auto. exists a. split; [left; auto|auto].
+  - destruct (r_used tbl a) eqn:Ua; [discriminate|]. destruct I as [<-|I]; [congruence|].
+    destruct (IH c W I Uc Ac) as (pre & post & -> & x & Ix & Ax). exists (a :: pre), post. split; auto. exists x. split; [right; auto|auto].
+Qed.
+Lemma below_length tbl d : d < length tbl \/ (r_used tbl d = false).
+Proof.
+  destruct (Nat.lt_ge_cases d (length tbl)); auto. right. unfold r_used. rewrite nth_overflow; auto.
+Qed.
+(* a table that passes the check satisfies the premise of the theorem, with the classes that can be in use as U *)
+Theorem table_ok_sound {T} (v:T) tbl : table_ok tbl = true ->
+  (forall d, r_used tbl d = true -> NoDup (d :: r_mro tbl d)) /\
+  (forall d c, r_used tbl d = true -> r_used tbl c = true -> In c (r_mro tbl d) -> ~ accepted_body T (r_body v tbl) c -> shadowed_before T (r_mro tbl) (r_body v tbl) d c).
+Proof.
+  intros H. unfold table_ok in H. rewrite forallb_forall in H.
+  assert (K: forall d, r_used tbl d = true -> class_ok tbl d = true).
+  { intros d Ud. destruct (below_length tbl d) as [L|L]; [|congruence]. apply H. apply in_seq. lia. }
+  split.
+  - intros d Ud. specialize (K d Ud). unfold class_ok in K. apply andb_true_iff in K as [N _]. apply nodupb_NoDup. exact N.
+  - intros d c Ud Uc Ic NA. specialize (K d Ud). unfold class_ok in K. apply andb_true_iff in K as [_ K]. rewrite Ud in K. simpl in K.
+    assert (Ac: acc tbl c = false).
+    { destruct (acc tbl c) eqn:E; auto. exfalso. apply NA. apply (acc_body v). exact E. }
+    unfold shadowed_before, accepted_body. apply orb_true_iff in K as [Ad|W].
+    + destruct (in_split _ _ Ic) as (p1 & post & E). exists (d :: p1), post. split; [simpl; f_equal; exact E|]. exists d. split; [left; auto|apply (acc_body v); exact Ad].
+    + destruct (walk_shadow tbl _ c W Ic Uc Ac) as (pre & post & E & x & Ix & Ax). exists (d :: pre), post. split; [simpl; f_equal; exact E|].
+      exists x. split; [right; auto|apply (acc_body v); exact Ax].
+Qed.
+(* the theorem on a checked table: any computation, any schedule, any number of uses of classes that can be in use *)
+Theorem table_slots_order_independent {T} (v:T) (compute:nat -> option T) tbl : table_ok tbl = true ->
+  forall sched ds t d w, Forall (fun c => r_used tbl c = true) ds ->
+  In t (snd (srun T (r_mro tbl) (r_body v tbl) compute sched (empty T, map (Start T) ds))) -> t = Done T d w -> w = expected T (r_mro tbl) (r_body v tbl) compute d.
+Proof.
+  intros H. destruct (table_ok_sound v tbl H) as (ND & NI).
+  apply (slots_order_independent T (r_mro tbl) (r_body v tbl) compute (fun c => r_used tbl c = true) ND NI).
+Qed.
